@@ -177,8 +177,17 @@ def cached(case):
 
 class Check(PropertyCheck):
     id = 'C07'
-    lean_targets = ['RegionsVerif.Props.C07']
-    namespaces = ['RegionsVerif.Props.C07']
+    lean_targets = ['RegionsVerif.Props.C07', 'RegionsVerif.Bridge.ConvGlue']
+    namespaces = ['RegionsVerif.Props.C07', 'RegionsVerif.Bridge.ConvGlue']
+
+    def translate(self):
+        # tie T: regenerate Gen/ConvGlue.lean (every to_sky / to_pixel method, the sky-side contains, the WCS helper)
+        import importlib.util, os
+        from .common import VERIF
+        spec = importlib.util.spec_from_file_location('convglue', os.path.join(VERIF, 'tools', 'convglue.py'))
+        mod = importlib.util.module_from_spec(spec)
+        spec.loader.exec_module(mod)
+        return mod.main()
     parallel = True
     level = 'proof'
     rule = ('real astropy.wcs.WCS: TAN/SIN x linear part encoded as PC+CDELT(-s,s) / full CD matrix / parity flip inside PC with positive CDELT / CROTA2+CDELT (the same transformation) x rotation -180..180 deg x scale 1e-5..1e-2 deg/pix (log-uniform) x standard parity x '
